@@ -1234,10 +1234,17 @@ class ABCPropertyGraph(ABCPropertyGraphConstants):
         assert interfaces is not None
 
         props = self.link_sliver_to_graph_properties_dict(lsliver)
+        # callers pass a generator over their interface objects: consume it before anything is written
+        interfaces = list(interfaces)
         self.add_node(node_id=lsliver.node_id, label=ABCPropertyGraph.CLASS_Link, props=props)
         # add edge links to specified interfaces
-        for i in interfaces:
-            self.add_link(node_a=lsliver.node_id, rel=ABCPropertyGraph.REL_CONNECTS, node_b=i)
+        try:
+            for i in interfaces:
+                self.add_link(node_a=lsliver.node_id, rel=ABCPropertyGraph.REL_CONNECTS, node_b=i)
+        except Exception:
+            # the link node is ours at this point: do not leave a link attached to some of its interfaces behind
+            self.delete_node(node_id=lsliver.node_id)
+            raise
 
     def add_component_sliver(self, *, parent_node_id: str, component: ComponentSliver):
         """
